@@ -642,8 +642,9 @@ def run_case(desc):
     # some inputs do not require grad: they are still parameters of the operators / arguments of solve
     frozen = []
     if desc["special"] == "frozenA":
-        cand = [k for k in a.leaves if k not in a.unused and k not in shared]
-        if len(cand) >= 2:
+        # (the point at which a Jacobian operator is taken must require grad: xitorch.grad.jac rejects it otherwise)
+        cand = [k for k in a.leaves if k not in a.unused and k not in shared and k != "A.x0"]
+        if len(cand) >= 2 or akind == "jac":
             frozen = [cand[rng.randrange(len(cand))]]
         if m is not None and emode == "EM" and rng.random() < 0.5:
             frozen += [k for k in m.leaves][:1]
